@@ -214,10 +214,19 @@ func c20Run(h c20Hist, r *vlib.Rng) (sig, what string, nlines int, inconclusive 
 	watchdog := time.After(60 * time.Second)
 	// phase 1: initial files
 	initDone := rd.InitFilesDone()
+	// In every other history the watcher reports a write to the live file while
+	// the files present at start are still being read (nothing was written: the
+	// event is late news about content that is being read anyway).
+	early := events
+	if !r.Bool() {
+		early = nil
+	}
 	for initDone != nil {
 		select {
 		case l := <-rd.Lines():
 			got = append(got, l)
+		case early <- fsnotify.Event{Name: c20Dir + "/audit.log", Op: fsnotify.Write}:
+			early = nil
 		case <-initDone:
 			initDone = nil
 		case <-watchdog:
